@@ -70,20 +70,29 @@ SPEC = {
     "extra_coverage": extra_coverage,
     "min_cases": {"quick": 50, "thorough": 300},
     "nontrivial": lambda ln: "| skip-env" not in ln,
-    "rule": ("T = one real MonotonicTimestampGenerator shared by 2..16 OS threads x 100..65000 calls (every thread "
-             "count 2..16 once, then seeded sizes; paces: tight loop, random spins, yield_now, staggered bursts; "
-             "with and without the clock-skew warning configuration), every value each thread was handed plus one "
-             "call after the join, checked by the extracted property predicate prop_ok (= distinct over all threads "
-             "and strictly increasing per thread, C18_prop_ok_iff) and final_ok; B = single thread with the harness' "
-             "own SystemTime readings around every call, checked by the extracted bracket acceptor (the value must "
-             "be exactly what the model's compute_next returns for some reading in the bracket); pace 4 of T = two "
-             "phases separated by a barrier, every second-phase value must exceed every first-phase value "
-             "(phase_ok, C18_call_order); E = end-to-end: a real Session (generator wrapped in a call counter / no "
-             "generator) sends 30..900 concurrent QUERY/EXECUTE/BATCH requests to mocknode, 40% with an explicit "
-             "statement timestamp (boundary values incl. i64::MIN/MAX), the timestamp field of every received frame "
-             "is compared with the extracted choose_ts, generated ones must be pairwise distinct, and the number of "
-             "next_timestamp calls must equal the number of frames without a statement timestamp; non-trivial = every "
-             "case; distinct = distinct case lines (each carries the serial number of the run)"),
+    "rule": ("the runner emits a FIXED number of cases of every kind for every seed (30 T, 5 B, 9 C, 12 E quick / 60 E thorough) "
+             "and adds seeded ones up to --n calls. T = one real MonotonicTimestampGenerator (without warnings / default / "
+             "with_warning_times(1 us, 0)) shared by 2..16 OS threads x 100..65000 calls; paces 0-3 tight loop, random spins, "
+             "yield_now, staggered bursts; 4 two phases around a barrier (phase_ok, C18_call_order); 5 tick sweep: all threads "
+             "released together by a spin barrier at -400..+400 ns around the microsecond tick, 3 calls each, again and again; "
+             "6/7 a SCRIPTED clock shared by all threads (this binary defines clock_gettime: the reading stalls for 4/32 reads, "
+             "steps backwards, is sometimes before the epoch); every value each thread was handed plus one call after the join "
+             "is checked by the extracted property predicate prop_ok (= pairwise distinct over all threads and strictly "
+             "increasing per thread, C18_prop_ok_iff => viol) and final_ok (diff). B = single thread on the real clock, the "
+             "harness' own SystemTime readings around every call, extracted bracket acceptor (the value must be what "
+             "compute_next returns for some reading in the bracket). C = single thread under a scripted clock (repeats, small "
+             "and large steps, backward steps, pre-epoch readings, readings beyond i64::MAX us), one reading per call, every "
+             "value compared EXACTLY with compute_next_checked - all three arms of compute_next, and the overflow panic of the "
+             "warning branch's i64 `last - u_cur` (harness built with overflow checks). E = end-to-end on mocknode: a real Session "
+             "(generator behind a call counter / no generator) sends 30..900 concurrent requests of 8 kinds (unpaged / iter / "
+             "single-page x unprepared / prepared, batch of unprepared statements, batch with a prepared statement), 40% with an "
+             "explicit statement timestamp (boundary values incl. i64::MIN/MAX); the first EXECUTEs are answered UNPREPARED and "
+             "all prepared statements are evicted half way, so frames are RE-SENT; every frame of a request must carry frames_ts "
+             "(explicit timestamp changed => viol; for generated timestamps the value is only visible in the frame, so presence, "
+             "equality across the frames of a request and pairwise distinctness over requests (=> viol) are what is checked); "
+             "number of next_timestamp calls = requests without a statement timestamp + internal frames of the window (re-sent "
+             "frames do not count). non-trivial = every case that ran (skip-env excluded); distinct = distinct case lines (each "
+             "carries the serial number of the run)"),
     "trusted_base": [
         "E cases: vh::mocknode (own CQL v4 frame reader) reports the timestamp field of QUERY/EXECUTE/BATCH frames",
         "SeqCst load / compare_exchange are modelled as single atomic steps of a sequentially consistent memory",
